@@ -114,39 +114,58 @@ func runC18(e *Engine, r *Report) {
 			"voting members are exactly remotes ∪ witnesses", "votingMembers no longer ranges exactly remotes and witnesses")
 	}
 	if tc := r.need(raftT + "tryCommit"); tc != nil {
-		// every element store into raft.matched takes remote.match of a member ranged from remotes or witnesses
+		// every element store into raft.matched (wherever the filling loop
+		// lives) takes remote.match of a member ranged from remotes or witnesses
 		matchF := e.Field("internal/raft", "remote", "match")
 		cnt := 0
 		for _, w := range e.FieldWrites(matched) {
-			if w.Fn != tc || w.Kind != "elemstore" {
-				continue
+			if w.Kind != "elemstore" || !fieldV(matchF)(w.Val) {
+				continue // sorting swaps elements of the array among themselves
 			}
 			cnt++
-			okv := fieldV(matchF)(w.Val) && e.dependsOn(w.Val, func(v ssa.Value) bool {
+			okv := e.dependsOn(w.Val, func(v ssa.Value) bool {
 				rg, ok := v.(*ssa.Range)
 				return ok && (fieldV(remotes)(rg.X) || fieldV(witnesses)(rg.X))
 			}, 0) && !e.dependsOn(w.Val, func(v ssa.Value) bool {
 				rg, ok := v.(*ssa.Range)
 				return ok && fieldV(nonVotings)(rg.X)
 			}, 0)
-			r.check(okv, "DEP-match-array", "matched[] filled from remotes/witnesses in tryCommit #"+itoa(cnt), e.ipos(w.Instr),
+			r.check(okv, "DEP-match-array", "matched[] filled from remotes/witnesses in "+fname(w.Fn)+" #"+itoa(cnt), e.ipos(w.Instr),
 				"commit quorum counts match values of voting members only", "a match value that does not come from remotes/witnesses enters the commit computation")
 		}
 		r.floor("DEP-match-array", cnt, 2)
-		// the committed index is matched[numVoting - quorum]
+		// the index handed to entryLog.tryCommit derives from
+		// matched[numVotingMembers() - quorum()] (directly or through a helper)
 		nv, q := e.Func(raftT+"numVotingMembers"), e.Func(raftT+"quorum")
-		okIdx := false
-		forEachInstr(tc, func(in ssa.Instruction) {
-			ia, ok := in.(*ssa.IndexAddr)
+		logTryCommit := r.need("(*internal/raft.entryLog).tryCommit")
+		isCandidate := func(v ssa.Value) bool {
+			ld, ok := v.(*ssa.UnOp)
+			if !ok {
+				return false
+			}
+			ia, ok := ld.X.(*ssa.IndexAddr)
 			if !ok || !fieldV(matched)(ia.X) {
-				return
+				return false
 			}
-			if b, ok := stripConv(ia.Index).(*ssa.BinOp); ok && b.Op.String() == "-" && e.callV(nv)(b.X) && e.callV(q)(b.Y) {
-				okIdx = true
+			b, ok := stripConv(ia.Index).(*ssa.BinOp)
+			return ok && b.Op.String() == "-" && e.callV(nv)(b.X) && e.callV(q)(b.Y)
+		}
+		nc := 0
+		if logTryCommit != nil {
+			for _, s := range e.CallerSites(logTryCommit) {
+				if fnPkg(s.Parent()) != e.pkgTypes("internal/raft") || !e.IsLive(outermostFn(s.Parent())) {
+					continue
+				}
+				args := s.Common().Args
+				if len(args) < 2 {
+					continue
+				}
+				nc++
+				r.check(e.dependsOn(args[1], isCandidate, 2), "DEP-match-array", "commit candidate in "+fname(s.Parent())+" is matched[numVotingMembers()-quorum()]", e.ipos(s),
+					"the commit candidate is the quorum-th largest match", "the commit candidate is no longer matched[numVotingMembers()-quorum()]")
 			}
-		})
-		r.check(okIdx, "DEP-match-array", "commit candidate is matched[numVotingMembers()-quorum()]", e.pos(tc.Pos()),
-			"the commit candidate is the quorum-th largest match", "the commit candidate is no longer matched[numVotingMembers()-quorum()]")
+		}
+		r.floor("DEP-match-array-candidate", nc, 1)
 	}
 	if lq := r.need(raftT + "leaderHasQuorum"); lq != nil {
 		vm, q := e.Func(raftT+"votingMembers"), e.Func(raftT+"quorum")
@@ -178,14 +197,14 @@ func runC18(e *Engine, r *Report) {
 	if strip != nil && wsnap != nil && msgEntries != nil && msgSnapshot != nil && msgType != nil && replicateC != nil {
 		witnessOK := func(pol bool) func(fs []Fact) bool {
 			return func(fs []Fact) bool {
-				return hasBoolFact(fs, func(v ssa.Value) bool {
+				return e.holds(reqBool("witness lookup", func(v ssa.Value) bool {
 					ex, ok := v.(*ssa.Extract)
 					if !ok || ex.Index != 1 {
 						return false
 					}
 					lk, ok := ex.Tuple.(*ssa.Lookup)
 					return ok && fieldV(witnesses)(lk.X)
-				}, pol)
+				}, pol), fs, 2)
 			}
 		}
 		// functions that build a Replicate message with entries
